@@ -150,7 +150,7 @@ class Gen:
         for v in ["f", "g", "h", "c", "o", "y2"]:
             nlev[v] = max(2, min(len(LEVELS[v]), cfg["nlev"] + r.choice([-1, 0, 0, 1])))
         nlev["y2"] = min(nlev["y2"], 3)
-        nk = r.choice([2, 3, 4])
+        nk = cfg.setdefault("nk", r.choice([2, 3, 4]))  # the same integer codes in every frame of a scenario
         cols = []
         loc = {c: r.choice([-50, -3, 0, 2, 40]) + 7 * variant for c in NUM_COLS + ["y"]}
         sc = {c: r.choice([0.5, 1, 3, 10]) for c in NUM_COLS + ["y"]}
@@ -186,7 +186,8 @@ class Gen:
         ocats = LEVELS["o"][: nlev["o"]]
         cols.append(["o", "cat", levels_column(ocats), {"categories": ocats, "ordered": True}])
         # integer codes; in some frames the same codes arrive as floats (1.0, 2.0: a merge or a NaN upcast)
-        kkind = "float" if r.random() < 0.25 else "int"
+        alt = cfg.setdefault("k_float_alt", r.random() < 0.5)
+        kkind = "float" if (alt and variant % 2 == 1) or (not alt and r.random() < 0.1) else "int"
         cols.append(["k", kkind, [float(v) if kkind == "float" else v for v in levels_column(list(range(1, nk + 1)))],
                      None])
         trials = [r.randint(1, 12) for _ in range(n)]
@@ -856,7 +857,7 @@ class Gen:
             client = r.randrange(cfg["n_clients"])
             self._has_ec = bool(clients[client]["extra"] and "ec" in clients[client]["extra"])
             same_text = [x for x in designs if "extra" not in x["fm"]["fams"] or self._has_ec]
-            if same_text and len(trains) > 1 and r.random() < 0.2:
+            if same_text and len(trains) > 1 and r.random() < 0.3:
                 # the same formula text again, by (maybe) another caller on (maybe) other data
                 fm = r.choice(same_text)["fm"]
             else:
